@@ -168,6 +168,14 @@ def run(tier):
     lattice_projects.append([{"path": "big.circom", "named": True, "text": COMPLEX}, {"path": "lib.circom", "named": True, "text": COMPLEX_LIB}])
     lattice_projects.append([{"path": "lib.circom", "named": True, "text": COMPLEX_LIB}, {"path": "big.circom", "named": True, "text": COMPLEX}])
     lattice_projects.append([{"path": "nopragma.circom", "named": True, "text": "template T() {\n  signal input a;\n  signal output b;\n  b <-- a;\n}\n"}])
+    # twin files: two (three) user-specified files with the same layout, whose definitions differ only in an equally long name, so that
+    # their findings agree in id, message and byte span and differ in the file alone: each must still be displayed once per file
+    def twin(nm):
+        return ("pragma circom 2.0.0;\ntemplate %s() {\n  signal input a;\n  signal output o;\n  var s = 1;\n  { var s = 2; }\n  o <-- a;\n}\n"
+                "function f%s(k) {\n  var r = k * 2;\n  var u = 3;\n  return r;\n}\n" % (nm, nm))
+    lattice_projects.append([{"path": "twin_a.circom", "named": True, "text": twin("Aa")}, {"path": "twin_b.circom", "named": True, "text": twin("Bb")}])
+    if tier != "quick":
+        lattice_projects.append([{"path": "twin_%s.circom" % n.lower(), "named": True, "text": twin(n)} for n in ("Cc", "Aa", "Bb")])
     some = rnd.sample(conf_list, min(3 if tier == "quick" else 12, len(conf_list)))
     lattice_projects += [files_of[k] for k, c in some]
     if tier == "quick":
